@@ -152,14 +152,15 @@ Theorem C05_block_is_local :
   forall cs c t acc, ublock cs c t acc = ublock cs c t [] ++ acc.
 Proof. exact ublock_app. Qed.
 
-(** The total form, for compositions with pass-through adapters, non-negative fixed delays and buffering adapters
-    ([term_ok] and [stateless]) whose cycles carry sufficient delays ([sufficient], C04): EVERY order in which the components are
+(** The total form, for compositions with pass-through adapters, buffering adapters and delay adapters with
+    non-negative delays — DelayFixed and DelayToPull, no DelayToPush ([term_ok] and [nopush]) — whose cycles carry
+    sufficient delays ([sufficient], C04): EVERY order in which the components are
     considered ends normally as soon as the fuel exceeds the explicit bound [enough_fuel] (no order can run forever, no
     order meets a data or circular-coupling error), every component is at or beyond the end time, and any two orders
     end with the same update count and the same time for every component. *)
 Theorem C05_every_order_same_outcome :
   forall cs rank phi rank' endt m prio1 prio2,
-    term_ok cs rank -> stateless cs -> sufficient cs phi rank' -> min_start cs = Some m -> m < endt ->
+    term_ok cs rank -> nopush cs -> sufficient cs phi rank' -> min_start cs = Some m -> m < endt ->
     (forall c, (c < length cs)%nat -> In c prio1) ->
     (forall c, (c < length cs)%nat -> In c prio2) ->
     forall fuel1 fuel2, (enough_fuel cs endt <= fuel1)%nat -> (enough_fuel cs endt <= fuel2)%nat ->
@@ -216,7 +217,7 @@ Definition ex5r : composition :=
 Definition ex5r_phi (c : nat) : Z := match c with 0%nat => 0 | 1%nat => 2 | _ => -1 end.
 
 Example C05_total_nonvacuous :
-  term_ok ex5r (fun _ => O) /\ stateless ex5r /\ sufficient ex5r ex5r_phi (fun _ => O) /\ min_start ex5r = Some 0 /\
+  term_ok ex5r (fun _ => O) /\ nopush ex5r /\ sufficient ex5r ex5r_phi (fun _ => O) /\ min_start ex5r = Some 0 /\
   (enough_fuel ex5r 30 <= 700)%nat /\
   (let '(o1, s1, a1) := run_prio [0; 1; 2]%nat 700 ex5r 30 in
    let '(o2, s2, a2) := run_prio [2; 0; 1]%nat 700 ex5r 30 in
